@@ -61,6 +61,7 @@ PURE = {
     "std::option::Option::expect": "Option::expect",
     "std::option::Option::unwrap": "Option::unwrap",
     "std::option::Option::take": "Option::take",
+    "std::option::Option::filter": "Option::filter",
     "std::iter::Iterator::map": "Iterator::map",
     "std::iter::Iterator::take_while": "Iterator::take_while",
     "std::iter::Iterator::collect": "Iterator::collect",
@@ -440,16 +441,26 @@ class Evaluator:
         from guards import block_facts, unref
         body = ctx.body
         defs = [d for d in body.defs().get(l, []) if not body.blocks[d[0]]["cleanup"]]
-        if len(defs) != 2 or any(d[2] != "assign" for d in defs) or (1 <= l <= body.arg_count):
+        if len(defs) != 2 or any(d[2] not in ("assign", "call") for d in defs) or (1 <= l <= body.arg_count):
             return phi
-        (b1, _, _, rv1), (b2, _, _, rv2) = defs
+        (b1, _, k1, rv1), (b2, _, k2, rv2) = defs
         if b1 == b2 or contains(phi, lambda x: x[0] == "cyclic"):
             return phi
         # (guard facts are evaluated below while this local is still being evaluated: only outside loops, where the
         #  dominating conditions cannot depend on the local itself)
         if any(b1 in lp or b2 in lp for (_h, lp) in body.natural_loops()):
             return phi
-        v1, v2 = unref(self.rvalue(ctx, rv1)), unref(self.rvalue(ctx, rv2))
+        v1 = unref(self.rvalue(ctx, rv1) if k1 == "assign" else self.call(ctx, b1, rv1))
+        v2 = unref(self.rvalue(ctx, rv2) if k2 == "assign" else self.call(ctx, b2, rv2))
+        # (the value of a call is available in the block *after* the call: its guard facts are those of the call block)
+        # `match opt { Some(x) => x, None => d }` is opt.unwrap_or(d)
+        s1 = [f for f in block_facts(self, ctx, b1) if len(f) == 3 and f[0] == "is_some"]
+        s2 = [f for f in block_facts(self, ctx, b2) if len(f) == 3 and f[0] == "is_some"]
+        for f in s1:
+            if ("is_some", f[1], not f[2]) in s2 and not contains(f[1], lambda x: x[0] in ("cyclic", "unknown")):
+                vs, vn = (v1, v2) if f[2] else (v2, v1)
+                if vs == unref(self.payload(ctx, f[1])) and not contains(vn, lambda x: x == f[1]):
+                    return ("call", "Option::unwrap_or", (f[1], vn))
         f1s = [f for f in block_facts(self, ctx, b1) if len(f) == 3 and f[0] in ("lt", "le")]
         f2s = [f for f in block_facts(self, ctx, b2) if len(f) == 3 and f[0] in ("lt", "le")]
         neg = {"lt": "le", "le": "lt"}
@@ -469,6 +480,13 @@ class Evaluator:
                     return ("call", "max", (p, q))
                 if va[0] == "bin" and va[1] == "Sub" and unref(va[2]) == q and unref(va[3]) == p and vb == ("int", 0):
                     return ("call", "saturating_sub", (q, p))
+                # `if c >= e - b { e } else { b + c }` (b <= e known where e - b is computed) is min(b + c, e)
+                for (diff, c_, vdiff, vsum) in ((p, q, va, vb), (q, p, vb, va)):
+                    if diff[0] == "bin" and diff[1] == "Sub":
+                        e_, b_ = unref(diff[2]), unref(diff[3])
+                        if vdiff == e_ and vsum[0] == "bin" and vsum[1] == "Add" and \
+                                {unref(vsum[2]), unref(vsum[3])} == {b_, c_}:
+                            return ("call", "min", (("bin", "Add", b_, c_), e_))
             return phi
         return phi
 
@@ -708,6 +726,8 @@ class Evaluator:
                 return self.payload(ctx, self.closure_ret(ctx, t[2][1], [self.payload(ctx, t[2][0])]))
             if m in ("Option::cloned", "Option::copied"):
                 return ("call", "clone", (self.payload(ctx, t[2][0]),))
+            if m == "Option::filter" and len(t[2]) == 2:
+                return self.payload(ctx, t[2][0])
             if m == "bool::then" and len(t[2]) == 2:
                 return self.closure_ret(ctx, t[2][1], [])
             if m == "bool::then_some" and len(t[2]) == 2:
